@@ -78,12 +78,22 @@ class SqlFluffLineageAnalyzer(LineageAnalyzer):
                     )
 
     def _list_specific_statement_segment(self, sql: str):
-        parsed = Linter(config=self._sqlfluff_config).parse_string(sql)
+        try:
+            parsed = Linter(config=self._sqlfluff_config).parse_string(sql)
+        except Exception as e:
+            # sqlfluff itself failed on this text (templater, in-file directive, parser internals)
+            raise InvalidSyntaxException(
+                f"This SQL statement is unparsable, sqlfluff failed with {type(e).__name__}: {e} for SQL:\n"
+                f"{sql}"
+            ) from e
         violations = [
             str(e)
             for e in parsed.violations
             if isinstance(e, (SQLLexError, SQLParseError))
         ]
+        if not violations and parsed.root_variant() is None:
+            # no tree at all, e.g. the templater gave up on an unbalanced "{{": report what sqlfluff reported
+            violations = [str(e) for e in parsed.violations] or ["no parse tree"]
         if violations:
             violation_msg = "\n".join(violations)
             raise InvalidSyntaxException(
